@@ -90,7 +90,7 @@ func vfc07RunFixture(t *testing.T, r *vfkit.Run, c int, rng *rand.Rand, nReq int
 	ts := NewTSDBStore(nil, db, component.Receive, tsdbExt)
 	defer ts.Close()
 	bs := vfc07NewBucketStore(t, fx, vfc07StoreCfg{
-		cache:     []string{"none", "large", "tiny"}[rng.Intn(3)],
+		cache:     []string{"large", "large", "tiny", "none"}[rng.Intn(4)],
 		sampling:  []int{1, 2, 32}[rng.Intn(3)],
 		estSeries: []uint64{0, 8, 16, 64}[rng.Intn(4)],
 		hints:     rng.Intn(2) == 0,
